@@ -49,11 +49,12 @@ theorem flat_vs_map_lookup (kvs : List (String × Val)) (k : String) :
     · split <;> simp [isParseZero, isBlank]
     · rfl
 
-/-- (a) each source names a field by ITS tag, falling back to the `zog` tag and then the schema key -/
+/-- (a) each source names a field by the name in ITS tag (what precedes the first comma), falling back
+    to the `zog` tag and then the schema key -/
 theorem key_per_source (src : String) (fm : FieldMeta) (key : String) :
     Engine.keyFor (some src) fm key =
       match lookupD fm.tags src with
-      | some k => k
+      | some k => if Engine.tagName k != "" then Engine.tagName k else (lookupD fm.tags "zog").getD key
       | none => (lookupD fm.tags "zog").getD key := by
   unfold Engine.keyFor
   cases h : lookupD fm.tags src <;> simp [h]
